@@ -467,6 +467,11 @@ func exportedNameTable(v ssa.Value) bool {
 				return true
 			}
 		}
+	case *ssa.Slice:
+		// a local slice written out as a literal: the whole of a local array
+		if a, isAlloc := x.X.(*ssa.Alloc); isAlloc && x.Low == nil && x.High == nil && localExportedNames(a, 0) {
+			return true
+		}
 	case *ssa.Global:
 		// an array variable indexed in place
 		g = x
@@ -577,7 +582,31 @@ func localExportedNames(a *ssa.Alloc, depth int) bool {
 			}
 		case *ssa.UnOp, *ssa.DebugRef:
 		case *ssa.Slice:
-			return false
+			// the whole array as a slice ([]string{"Slug", "ID"}), only read through
+			if x.Low != nil || x.High != nil || x.Max != nil || x.Referrers() == nil {
+				return false
+			}
+			for _, r2 := range *x.Referrers() {
+				switch y := r2.(type) {
+				case *ssa.IndexAddr:
+					if y.Referrers() != nil {
+						for _, r3 := range *y.Referrers() {
+							if _, isLd := r3.(*ssa.UnOp); !isLd {
+								if _, isDbg := r3.(*ssa.DebugRef); !isDbg {
+									return false
+								}
+							}
+						}
+					}
+				case *ssa.Call:
+					if b, isB := y.Call.Value.(*ssa.Builtin); !isB || b.Name() != "len" {
+						return false
+					}
+				case *ssa.DebugRef:
+				default:
+					return false
+				}
+			}
 		default:
 			return false
 		}
